@@ -53,6 +53,9 @@ Dissect ==
          same == /\ Len(obs) = Len(Body)
                  /\ \A i \in 1..Len(obs) : obs[i].name = Body[i].name /\ obs[i].off = Body[i].off /\ obs[i].len = Body[i].len
          fails == (IF Ev.ok THEN <<>> ELSE <<[kind |-> "lua-error", field |-> "-", fk |-> "-"]>>)
+                  \* every tree item names a declared field, the protocol or a text: nil where one of them belongs (an
+                  \* undefined global, a field table entry that does not exist) is a defect even where Wireshark shrugs
+                  \o (IF \E k \in 1..Len(Ev.adds) : Ev.adds[k].kind = "nil" THEN <<[kind |-> "nil-tree-item", field |-> "-", fk |-> "-"]>> ELSE <<>>)
                   \o (IF same THEN <<>> ELSE <<FirstBad(Body, obs)>>)
                   \o (IF same /\ Ev.ok /\ End(Ev.adds) # Len(lay) /\ Len(lay) > 0 THEN <<[kind |-> "does-not-end-at-message-end", field |-> "-", fk |-> "-"]>> ELSE <<>>)
      IN IF fails = <<>> THEN TRUE ELSE PrintT(<<"VERDICT", ToJson([i |-> l, ev |-> "dissect", lang |-> "lua", fails |-> fails])>>)
